@@ -64,6 +64,7 @@ AGREE_TOL = 4e-3          # CRR(52) vs FD American / K (dominated by the CRR err
 AGREE_TOL_200 = 8e-4      # CRR(200/201 averaged) vs FD American / K, incl. negative rates (measured, see notes)
 FD_THETA_EURO = {0.5: 2e-5, 0.75: 1e-4, 1.0: 3e-4}   # FD(2001 nodes, 1000 steps) European error / K per theta (time error O(dt) for theta != 0.5)
 EBT_EURO = 4e-3           # EquityBinomialTree (n, n+1 averaged, n >= 50) vanilla European vs analytic / K
+BJS_ROUND = 8.0           # forward rounding error allowed when recognising the (b := q) formula: 8 eps x sum of |terms| (see bjs_q_is_carry)
 APPROX_TOL = 0.012        # BAW vs CRR(400) inside the validity domain (r>0, t<=1, sigma<=50%) / K
 FD_MODEL_TOL = 1e-9       # calculate_fd_matrix / fd_roll_backwards / black_scholes_fd vs the Lean model (measured 3e-15)
 PSOR_MODEL_TOL = 5e-8     # PSOR / black_scholes_fd_PSOR vs the Lean model, relative to K: two SOR runs that stop one sweep
@@ -72,7 +73,17 @@ FX_TREE_TOL = 1.5e-3      # FXVanillaOption AMERICAN (100/101 averaged tree) vs 
                           # in units of K sigma sqrt(t_exp) (measured 5.1e-4)
 PSOR_THETA_EURO = {0.5: 2.5e-4, 0.6: 5e-4, 0.75: 8e-4, 0.9: 1.2e-3}   # PSOR(>= 400 nodes) European error / K per theta at 200 time
                           # steps, scaled by 200/steps for fewer (measured over seeds 0-4: 7.3e-5, 1.4e-4, 1.8e-4, 2.4e-4)
+SMOOTH_H2 = 1.5           # payoff smoothing (smooth=True, cell-averaged payoff) has a second-order bias: error / K = C h^2 with
+                          # h = 2 num_std sigma sqrt(t) / num_samples; C measured 0.22 .. 0.75 (constant under grid refinement)
 PSOR_FD_AGREE = 5e-6      # PSOR vs FINITE_DIFFERENCE American value at the same parameters / K (measured 5.4e-8)
+
+
+def smooth_bound(params, c, default_samples=2000):
+    """stated bound of the payoff-smoothing bias (0 without smoothing): SMOOTH_H2 x (log-grid spacing)^2"""
+    if not params.get('smooth'):
+        return 0.0
+    h = 2.0 * params.get('num_std', 5) * c['vol'] * math.sqrt(c['t']) / params.get('num_samples', default_samples)
+    return SMOOTH_H2 * h * h
 
 
 def run_model(ops):
@@ -108,9 +119,12 @@ def gen_case_neg(rng):
     return dict(S=S, t=t, K=K, r=r, q=q, vol=v)
 
 
-def bjs_q_is_carry(s, t, k, r, b, v, is_call):
+def bjs_q_is_carry(s, t, k, r, b, v, is_call, with_scale=False):
     """Bjerksund-Stensland (1993) flat-boundary formula with cost of carry `b` given explicitly.  Used ONLY to
-    characterise known finding C12/bjerksund-q-is-carry: the library passes the dividend yield where this takes b."""
+    characterise known finding C12/bjerksund-q-is-carry: the library passes the dividend yield where this takes b.
+    with_scale=True also returns the sum of the magnitudes of the terms that the formula adds and subtracts: the value is the
+    difference of terms of that size, so two correctly rounded evaluations of the SAME formula (NumPy here, Numba fastmath in the
+    library) may differ by a few eps x scale (e.g. sigma = 5 %: terms of 4e11 and 6e11 cancel to 0 here and to -7e-5 there)."""
     import numpy as np
     from scipy.special import ndtr
 
@@ -121,11 +135,17 @@ def bjs_q_is_carry(s, t, k, r, b, v, is_call):
         s, k, r, b = k, s, r - b, -b
     s, t, k, r, b, v = (np.float64(x) for x in (s, t, k, r, b, v))
     with np.errstate(all='ignore'):
+        mags = []       # magnitudes of the quantities that are added / subtracted (forward rounding-error scale)
+
         def phi(S, T, gamma, H, X):
             lam = (-r + gamma * b + 0.5 * gamma * (gamma - 1.0) * v ** 2) * T
             d = -(np.log(S / H) + (b + (gamma - 0.5) * v ** 2) * T) / (v * np.sqrt(T))
             kappa = (2.0 * gamma - 1.0) + (2.0 * b) / v ** 2
-            return np.exp(lam) * (S ** gamma) * (n_hull(d) - n_hull(d - (2.0 * np.log(X / S) / v / np.sqrt(T))) * ((X / S) ** kappa))
+            pre = np.exp(lam) * (S ** gamma)
+            t1 = n_hull(d)
+            t2 = n_hull(d - (2.0 * np.log(X / S) / v / np.sqrt(T))) * ((X / S) ** kappa)
+            mags.append(abs(pre) * (abs(t1) + abs(t2)))
+            return pre * (t1 - t2)
         beta = (0.5 - b / v ** 2) + np.sqrt((0.5 - b / v ** 2) ** 2 + 2.0 * r / v ** 2)
         if abs(r - b) < 1e-10:
             beta = 1.0
@@ -136,8 +156,13 @@ def bjs_q_is_carry(s, t, k, r, b, v, is_call):
             h_t = -(b * t + 2.0 * v * np.sqrt(t)) * (b_0 / (b_inf - b_0))
             x_t = b_0 + (b_inf - b_0) * (1.0 - np.exp(h_t))
         alpha = (x_t - k) * x_t ** (-beta)
-        return float(alpha * (s ** beta) - alpha * phi(s, t, beta, x_t, x_t) + phi(s, t, 1.0, x_t, x_t)
-                     - phi(s, t, 1.0, k, x_t) - k * phi(s, t, 0.0, x_t, x_t) + k * phi(s, t, 0.0, k, x_t))
+        t0_ = alpha * (s ** beta)
+        p1, p2, p3, p4, p5 = phi(s, t, beta, x_t, x_t), phi(s, t, 1.0, x_t, x_t), phi(s, t, 1.0, k, x_t), phi(s, t, 0.0, x_t, x_t), phi(s, t, 0.0, k, x_t)
+        val = float(t0_ - alpha * p1 + p2 - p3 - k * p4 + k * p5)
+        if with_scale:
+            scale = float(abs(t0_) + abs(alpha) * mags[0] + mags[1] + mags[2] + abs(k) * mags[3] + abs(k) * mags[4])
+            return val, scale
+        return val
 
 
 def run(ctx):
@@ -431,11 +456,15 @@ def run(ctx):
                         if err5 > FD500_EURO:
                             ctx.violation('FD (500 nodes) European error above its bound', dict(case, err=err5), clause='european-converges')
             else:
-                fdv = fd_store[-1][2]
+                # same resolution for both pricers: their DEFAULT step counts differ (PSOR (2000+1)//4 = 500, FD (2000+1)//2 = 1000) and the
+                # American projection is first order in dt, so the FD value is recomputed at PSOR's step count
+                fd_same = price(T.FINITE_DIFFERENCE, c, ao, params={'num_time_steps': 2001 // 4})
+                fdv = fd_same[1] if fd_same[0] == 'f' else fd_store[-1][2]
                 d = abs(a[1] - fdv) / c['K']
-                madd('PSOR-vs-FD american |diff|/K', d)
+                madd('PSOR-vs-FD american |diff|/K (same step count)', d)
+                madd('PSOR(500 steps)-vs-FD(1000 steps) american |diff|/K (defaults; not an oracle)', abs(a[1] - fd_store[-1][2]) / c['K'])
                 if d > 5e-5:
-                    ctx.violation('PSOR and FD American values disagree', dict(case, psor=a[1], fd=fdv), clause='agreement')
+                    ctx.violation('PSOR and FD American values disagree', dict(case, psor=a[1], fd=fdv, num_time_steps=2001 // 4), clause='agreement')
     ctx.count('FINITE_DIFFERENCE', 2 * nfd, 2 * nfd)
     ctx.count('PSOR', 2 * npsor, 2 * npsor)
     # CRR vs FD American agreement
@@ -668,8 +697,11 @@ def run(ctx):
                 ctx.violation('FD returned no value for accepted parameters', dict(case, got=e), clause='returns-value')
                 continue
             err = abs(e[1] - an) / c['K']
-            madd(f'FD theta={theta}:european-err/K' + (' (truncation regime)' if trunc else ''), err)
-            tol = max(FD_THETA_EURO[theta], FD_TRUNC_EURO if trunc else 0.0)
+            madd(f'FD theta={theta}:european-err/K' + (' (truncation regime)' if trunc else '') + (' smooth' if params.get('smooth') else ''), err)
+            if params.get('smooth') and not trunc and theta == 0.5:
+                madd('FD smooth=True theta=0.5: err / (K h^2)', err / (smooth_bound(params, c) / SMOOTH_H2))
+            tol_base = max(FD_THETA_EURO[theta], FD_TRUNC_EURO if trunc else 0.0)
+            tol = max(tol_base, smooth_bound(params, c))
             if err > tol:
                 ctx.violation(f'FD (theta={theta}) European value is {err:.2e} K from the analytic price (bound {tol:g})',
                               dict(case, scheme_value=e[1], analytic=an), clause='european-converges')
@@ -680,7 +712,7 @@ def run(ctx):
                 if e5[0] == 'f':
                     err5 = abs(e5[1] - an) / c['K']
                     madd(f'FD500 theta={theta}:european-err/K', err5)
-                    if err5 > max(8.0 * tol, FD500_EURO):
+                    if err5 > max(8.0 * tol_base, FD500_EURO, smooth_bound(p2, c)):
                         ctx.violation(f'FD (theta={theta}, 500 nodes) European error above its bound', dict(case, err=err5),
                                       clause='european-converges')
             if call and c['q'] == 0.0 and i % 2 == 0:
@@ -730,7 +762,7 @@ def run(ctx):
             tol0 = PSOR_THETA_EURO.get(theta, 9e-4) * (max(1.0, 200.0 / nsteps) if theta != 0.5 else 1.0)
             madd(f'PSOR theta={theta}:european-err/K x min(1, steps/200)' + (' (truncation regime)' if trunc else ''),
                  err * (min(1.0, nsteps / 200.0) if theta != 0.5 else 1.0))
-            tol = max(tol0, FD_TRUNC_EURO if trunc else 0.0)
+            tol = max(tol0, FD_TRUNC_EURO if trunc else 0.0, smooth_bound(params, c))
             if err > tol:
                 ctx.violation(f'PSOR (theta={theta}) European value is {err:.2e} K from the analytic price (bound {tol:g})',
                               dict(case, scheme_value=e[1], analytic=an), clause='european-converges')
@@ -874,9 +906,16 @@ def run(ctx):
                 fid = None
                 if scheme == 'Bjerksund_Stensland':
                     # known finding: the routine treats its `q` argument as the cost of carry b
-                    ref = bjs_q_is_carry(c['S'], c['t'], c['K'], c['r'], c['q'], c['vol'], call) if a[0] == 'f' else None
-                    same = a[0] == 'f' and ((math.isnan(a[1]) and math.isnan(ref)) or abs(a[1] - ref) <= 1e-7 * max(1.0, abs(ref))
+                    ref, ref_scale = bjs_q_is_carry(c['S'], c['t'], c['K'], c['r'], c['q'], c['vol'], call, with_scale=True) if a[0] == 'f' else (None, 0.0)
+                    # same formula, other rounding: 1e-7 relative plus the forward rounding error of the cancelling terms
+                    # (BJS_ROUND eps x sum of their magnitudes); NaN / inf of the scale (overflow at sigma = 5 %) adds nothing
+                    rnd = BJS_ROUND * 2.220446049250313e-16 * ref_scale if (ref_scale == ref_scale and not math.isinf(ref_scale)) else 0.0
+                    same = a[0] == 'f' and ((math.isnan(a[1]) and math.isnan(ref)) or abs(a[1] - ref) <= 1e-7 * max(1.0, abs(ref)) + rnd
                                             or (math.isinf(ref) and a[1] == ref))
+                    if a[0] == 'f' and rnd > 0 and not math.isnan(a[1]) and not math.isnan(ref) and abs(a[1] - ref) > 1e-7 * max(1.0, abs(ref)):
+                        # measured only where the relative criterion alone does not recognise the formula (ill-conditioned cases)
+                        madd('Bjerksund_Stensland ill-conditioned: |value - (b := q) reference| / (eps x sum of term magnitudes)',
+                             abs(a[1] - ref) / (2.220446049250313e-16 * ref_scale))
                     if a[0] == 'e' and a[1] == 'ZeroDivisionError':
                         same = True     # beta == 1 in the mis-parameterised formula: b_infty = k*beta/(beta-1)
                     fid = 'C12/bjerksund-q-is-carry' if same else None
@@ -892,15 +931,31 @@ def run(ctx):
                 if math.isnan(x) or math.isinf(x):
                     ctx.violation(f'{scheme} returned a non-finite value', dict(case, value=x), finding=fid, clause='returns-value')
                     continue
-                if scheme == 'BARONE_ADESI' and (not call):
-                    if intr - 0.05 * c['K'] <= x < intr - 1e-6 * c['K']:
-                        fid = 'C12/baw-put-below-intrinsic'
+                baw_put = scheme == 'BARONE_ADESI' and (not call)
+                mech = None
+
+                def put_mech():
+                    # known findings of the BAW put are excused by MECHANISM, not by magnitude: the code's number must be the BAW
+                    # formula at the root of the as-coded `_fput` (C12/baw-fput-wrong-residual) and the same formula with the
+                    # correct critical price must satisfy the oracle that the code's value violates
+                    nonlocal mech
+                    if mech is None:
+                        mech = baw_put_mechanism(c, x)
+                    return mech
                 if x < an - 2e-6 * c['K']:
-                    ctx.violation(f'{scheme} American value below the European value', dict(case, american=x, european=an),
-                                  finding=fid, clause='american-ge-european')
+                    f_ = fid
+                    if baw_put and put_mech()['reproduces'] and put_mech()['ref'] is not None and put_mech()['ref'] >= an - 2e-6 * c['K']:
+                        f_ = 'C12/baw-put-below-intrinsic'
+                    ctx.violation(f'{scheme} American value below the European value',
+                                  dict(case, american=x, european=an, **({'mechanism': put_mech()} if baw_put else {})),
+                                  finding=f_, clause='american-ge-european')
                 if x < intr - 1e-6 * c['K']:
-                    ctx.violation(f'{scheme} American value below intrinsic', dict(case, american=x, intrinsic=intr),
-                                  finding=fid, clause='american-ge-intrinsic')
+                    f_ = fid
+                    if baw_put and put_mech()['reproduces'] and put_mech()['ref'] is not None and put_mech()['ref'] >= intr - 1e-6 * c['K']:
+                        f_ = 'C12/baw-put-below-intrinsic'
+                    ctx.violation(f'{scheme} American value below intrinsic',
+                                  dict(case, american=x, intrinsic=intr, **({'mechanism': put_mech()} if baw_put else {})),
+                                  finding=f_, clause='american-ge-intrinsic')
                 if no_early_exercise(c, call):
                     d = abs(x - an) / c['K']
                     if d > 1e-5:
@@ -911,14 +966,16 @@ def run(ctx):
                         tree = price(T.CRR_TREE, c, ao, num_steps_per_year=400)
                     if tree[0] == 'f':
                         d = abs(x - tree[1]) / c['K']
-                        if fid is None and d > APPROX_TOL and scheme == 'BARONE_ADESI' and not call:
-                            # Is it the critical-price search (known defect of newton_secant, C20) rather than the
-                            # approximation?  Recompute the BAW put with S* solved by a bracketing root finder.
-                            ref = baw_put_reference(c)
-                            if ref is not None and abs(ref - tree[1]) / c['K'] <= APPROX_TOL and abs(x - ref) / c['K'] > 1e-4:
-                                fid = 'C12/baw-put-critical-price-wrong'
-                                case = dict(case, baw_with_bracketed_critical_price=ref)
-                        if fid is None:
+                        if fid is None and d > APPROX_TOL and baw_put:
+                            # Is it the critical price (root of the as-coded `_fput`, C12/baw-fput-wrong-residual) rather than the
+                            # approximation?  The code's number must be reproduced with that root, and the BAW put with S* solved
+                            # by a bracketing root finder must agree with the tree.
+                            m_ = put_mech()
+                            ref = m_['ref']
+                            if m_['reproduces'] and ref is not None and abs(ref - tree[1]) / c['K'] <= APPROX_TOL and abs(x - ref) / c['K'] > 1e-4:
+                                fid = 'C12/baw-put-below-intrinsic' if x < intr - 1e-6 * c['K'] else 'C12/baw-put-critical-price-wrong'
+                                case = dict(case, baw_with_bracketed_critical_price=ref, mechanism=m_)
+                        if fid is None and not (baw_put and x < intr - 1e-6 * c['K']):
                             madd(f'{scheme}:|approx-CRR400|/K in validity domain', d)
                         if d > APPROX_TOL:
                             ctx.violation(f'{scheme} is {d:.2e} K away from the CRR(400) American value inside its validity domain',
@@ -1007,10 +1064,14 @@ def run(ctx):
     # ------------------------------------------------------------------ 5. LSMC (seeded, loose)
     rng = ctx.rng('lsmc')
     nls = 10 if ctx.quick() else 100
-    for i in range(nls):
-        c = gen_case(rng)
-        c['vol'] = max(c['vol'], 0.1)
-        call = rng.random() < 0.4
+    for i in range(nls + 1):
+        if i == 0:      # witness of C12/lsmc-no-exercise-at-t0 (3.3 % K below intrinsic), replayed first on every run
+            c = dict(S=220.50300833232214, t=1.0, K=100.0, r=0.05, q=0.08, vol=0.5)
+            call = True
+        else:
+            c = gen_case(rng)
+            c['vol'] = max(c['vol'], 0.1)
+            call = rng.random() < 0.4
         ao = O.AMERICAN_CALL if call else O.AMERICAN_PUT
         case = dict(c, side='call' if call else 'put', scheme='LSMC', num_paths=10000, seed=42)
         a = price(T.LSMC, c, ao)
@@ -1019,13 +1080,28 @@ def run(ctx):
             ctx.violation('LSMC returned no value for an American option', dict(case, got=a), clause='returns-value')
             continue
         d = abs(a[1] - tr[1]) / c['K']
-        madd('LSMC-vs-CRR200 american |diff|/K', d)
-        if d > LSMC_TOL * max(1.0, c['vol'] * math.sqrt(c['t']) * 2):
-            ctx.violation('LSMC American value far from the tree value', dict(case, lsmc=a[1], tree=tr[1]), clause='agreement')
-        if a[1] < intrinsic(c, call) - 1e-9 * c['K']:
-            short = (intrinsic(c, call) - a[1]) / c['K']
-            ctx.violation('LSMC American value below intrinsic', dict(case, lsmc=a[1], intrinsic=intrinsic(c, call)),
-                          finding='C12/lsmc-no-exercise-at-t0' if short <= 0.01 else None, clause='american-ge-intrinsic')
+        intr = intrinsic(c, call)
+        ltol = LSMC_TOL * max(1.0, c['vol'] * math.sqrt(c['t']) * 2)
+        below = a[1] < intr - 1e-9 * c['K']
+        mech = None
+        if below or d > ltol:
+            # known finding C12/lsmc-no-exercise-at-t0, by mechanism: the code's number must be reproduced by the line-by-line replica of
+            # equity_lsmc, and the replica WITH the missing comparison at time index 0 must satisfy the oracle that is violated
+            try:
+                rep, rep_fix = lsmc_replica(c, call), lsmc_replica(c, call, fix_t0=True)
+                mech = dict(replica=rep, replica_with_t0_exercise=rep_fix, reproduces=abs(rep - a[1]) <= 1e-9 * max(1.0, abs(a[1])))
+            except Exception as e:  # noqa: BLE001
+                mech = dict(reproduces=False, error=type(e).__name__)
+        if not (below and d > ltol):
+            madd('LSMC-vs-CRR200 american |diff|/K', d)
+        if d > ltol:
+            ok = bool(mech and mech['reproduces'] and below and abs(mech['replica_with_t0_exercise'] - tr[1]) / c['K'] <= ltol)
+            ctx.violation('LSMC American value far from the tree value', dict(case, lsmc=a[1], tree=tr[1], mechanism=mech),
+                          finding='C12/lsmc-no-exercise-at-t0' if ok else None, clause='agreement')
+        if below:
+            ok = bool(mech and mech['reproduces'] and mech['replica_with_t0_exercise'] >= intr - 1e-9 * c['K'])
+            ctx.violation('LSMC American value below intrinsic', dict(case, lsmc=a[1], intrinsic=intr, mechanism=mech),
+                          finding='C12/lsmc-no-exercise-at-t0' if ok else None, clause='american-ge-intrinsic')
     # European through LSMC
     c = gen_case(rng)
     e = price(T.LSMC, c, O.EUROPEAN_PUT)
@@ -1037,7 +1113,7 @@ def run(ctx):
         an = euro(c, False)
         if abs(e[1] - an) / c['K'] > LSMC_TOL:
             ctx.violation('LSMC European value far from the analytic price', dict(c, lsmc=e[1], analytic=an), clause='european-converges')
-    ctx.count('LSMC', nls + 1, nls + 1)
+    ctx.count('LSMC', nls + 2, nls + 2)
 
     lap('lsmc')
     # ------------------------------------------------------------------ 6. enum coverage: unsupported combinations are reported
@@ -1071,6 +1147,118 @@ def run(ctx):
                     C.TRUSTED_BASE_COMMON + ['hand models Model/C12.lean, Model/C12FD.lean tied by correspondence only',
                                              'registry/baw.py source preparation (argument unpacking, solver call -> parameter)'], RULE)
 
+
+
+_FPUT_AC = []
+
+
+def fput_as_coded_njit():
+    """The residual that the Numba-compiled `_fput` evaluates (known finding C12/baw-fput-wrong-residual: the
+    `bs_value(..., -1)` term contributes 0, q1 is built with 4 K instead of 4 M / K), written independently of the library's
+    `_fput` and jitted so that the library's own `newton_secant` can be applied to it."""
+    if not _FPUT_AC:
+        import numpy as np
+        from numba import njit
+        from financepy.utils.math import n_vect
+
+        @njit(fastmath=True, cache=False)
+        def fput_ac(si, *args):
+            t = args[0]
+            k = args[1]
+            r = args[2]
+            q = args[3]
+            v = args[4]
+            b = r - q
+            v2 = v * v
+            W = 2.0 * b / v2
+            K = 1.0 - np.exp(-r * t)
+            q1 = (1.0 - W - np.sqrt((W - 1.0) ** 2 + 4.0 * K)) / 2.0
+            d1 = (np.log(si / k) + (b + v2 / 2.0) * t) / (v * np.sqrt(t))
+            return si - k - 0.0 - (1.0 - np.exp(-q * t) * n_vect(-d1)) * si / q1
+        _FPUT_AC.append(fput_ac)
+    return _FPUT_AC[0]
+
+
+def baw_put_given_sstar(c, sstar):
+    """Barone-Adesi & Whaley (1987) put value for a GIVEN critical price (own formula; the library's N and bs_value)."""
+    from financepy.utils.math import N
+    from financepy.models.black_scholes_analytic import bs_value
+    S, K, r, q, t, v = c['S'], c['K'], c['r'], c['q'], c['t'], c['vol']
+    if not S > sstar:
+        return K - S
+    b = r - q
+    M, W = 2.0 * r / (v * v), 2.0 * b / (v * v)
+    kk = 1.0 - math.exp(-r * t)
+    q1 = (-(W - 1.0) - math.sqrt((W - 1.0) ** 2 + 4.0 * M / kk)) / 2.0
+    d1 = (math.log(sstar / K) + (b + v * v / 2.0) * t) / (v * math.sqrt(t))
+    a1 = -(sstar / q1) * (1.0 - math.exp(-q * t) * float(N(-d1)))
+    return float(bs_value(S, t, K, r, q, v, 2)) + a1 * (S / sstar) ** q1
+
+
+def baw_put_mechanism(c, x):
+    """Is the BAW put value `x` of the code the consequence of known finding C12/baw-fput-wrong-residual and of nothing else?
+    (1) S* := root that the library's newton_secant finds for the as-coded residual (fput_as_coded_njit) from x0 = S;
+    (2) the BAW (1987) put formula evaluated with that S* must reproduce the code's number (1e-7 relative);
+    (3) `ref` = the same formula with the CORRECT critical price (bracketing solver, baw_put_reference) is returned so that the
+        caller can require that it satisfies the oracle the code's value violates."""
+    from financepy.utils.solver_1d import newton_secant
+    out = dict(reproduces=False, sstar_as_coded=None, value_as_coded=None, ref=None)
+    if c['r'] <= 0.0:
+        return out
+    try:
+        ss = float(quiet(newton_secant, fput_as_coded_njit(), x0=c['S'], args=(c['t'], c['K'], c['r'], c['q'], c['vol']),
+                         tol=1e-7, maxiter=50))
+        val = baw_put_given_sstar(c, ss)
+    except Exception:  # noqa: BLE001
+        return out
+    out.update(sstar_as_coded=ss, value_as_coded=val, reproduces=abs(val - x) <= 1e-7 * max(1.0, abs(x)), ref=baw_put_reference(c))
+    return out
+
+
+def lsmc_replica(c, call, fix_t0=False, num_paths=10000, seed=42, steps_per_year=52):
+    """Line-by-line NumPy replica of `equity_lsmc` as BlackScholes(LSMC).value calls it for American options (HERMITE_E, degree
+    3, antithetic normals, forward-matched paths, continuation regressed on the FITTED next values, backward loop that stops at
+    time index 1).  `fix_t0` adds the missing comparison at time index 0 (exercise now if intrinsic > mean discounted value).
+    Used ONLY to characterise known finding C12/lsmc-no-exercise-at-t0."""
+    import numpy as np
+    S, K, r, q, T_, sig = c['S'], c['K'], c['r'], c['q'], c['t'], c['vol']
+    np.random.seed(seed)
+    num_steps = int(steps_per_year * T_)
+    num_times = num_steps + 1
+    dt = T_ / num_times
+    times = np.linspace(0, T_, num_times)
+    mu = r - q - 0.5 * sig ** 2
+    if num_paths % 2 == 1:
+        num_paths += 1
+    half = int(num_paths / 2.0)
+    st = np.zeros((num_times, num_paths), 'd')
+    st[0] = S
+    gp = np.random.standard_normal((half, num_times))
+    g = np.concatenate((gp, -gp))
+    for it in range(1, num_times):
+        st[it] = st[it - 1] * np.exp(mu * dt + sig * g[:, it] * np.sqrt(dt))
+    for it in range(num_times):
+        st[it] = st[it] * (S * np.exp((r - q) * times[it])) / np.mean(st[it])
+    ex = st - K
+    ex[ex < 0] = 0
+    if not call:
+        ex = ex - (st - K)
+    val = np.zeros_like(ex)
+    val[-1] = ex[-1]
+    stop = np.zeros_like(ex)
+    stop[-1] = np.where(ex[-1] > 0, 1, 0)
+    df = np.exp(-r * dt)
+    for it in range(num_times - 2, 0, -1):
+        reg = np.polynomial.hermite_e.hermefit(st[it], val[it + 1] * df, 3)
+        cont = np.polynomial.hermite_e.hermeval(st[it], reg)
+        cont[cont < 0] = 0
+        stop[it] = np.where(ex[it] > cont, 1, 0)
+        val[it] = np.where(ex[it] > cont, ex[it], cont)
+    first = np.argmax(stop, axis=0)
+    v = float(np.mean(val[first, np.arange(ex.shape[1])] * np.exp(-r * times[first])))
+    if fix_t0:
+        v = max(v, float(ex[0][0]))
+    return v
 
 
 def baw_put_reference(c):
